@@ -251,7 +251,7 @@ fn angle_class(th: f64) -> &'static str {
 fn angle_strat() -> BoxedStrategy<f64> {
     let pi = std::f64::consts::PI;
     prop_oneof![
-        8 => (-4.0 * pi..4.0 * pi),
+        8 => -4.0 * pi..4.0 * pi,
         1 => (-8i32..=8, -1e-3f64..1e-3).prop_map(|(m, e)| m as f64 * std::f64::consts::FRAC_PI_2 + e),
         1 => (-8i32..=8).prop_map(|m| m as f64 * std::f64::consts::FRAC_PI_2),
         2 => (any::<bool>(), 1.1f64..6.0).prop_map(|(n, e)| if n { -(10f64.powf(e)) } else { 10f64.powf(e) }),
@@ -276,7 +276,7 @@ fn mid_strat(kmax: i32, family: Option<bool>) -> BoxedStrategy<f64> {
         3 => (-(kmax as f64) - 0.5..-2.0f64, any::<bool>()).prop_map(|(e, n)| if n { -(10f64.powf(e)) } else { 10f64.powf(e) }),
     ];
     prop_oneof![
-        2 => (-pi..pi),
+        2 => -pi..pi,
         5 => (base, off).prop_map(|(b, o)| b + o),
     ]
     .boxed()
